@@ -1,13 +1,28 @@
 /* Wrapper TU for orc/orcparse.c (property C14, C15): the real file is included verbatim; contracts are attached to
  * re-declarations; harnesses build arbitrary well-formed inputs. */
 #include "stubs/prelude.h"
-#include "/repo/orc/orcparse.c"
+/* mechanically extracted copy of /repo/orc/orcparse.c, regenerated on every run by vlib/props/c14.py:gen_parse_source
+ * (only change: variadic orc_parse_add_error -> non-variadic, arguments still evaluated) */
+#include "/verif/out/gen/orcparse_nv.c"
 #include "contracts/program_api.h"
 #include "stubs/log_stub.c"
 
 /* ---------------------------------------------------------------- ghost state */
-char *g_buf;          /* the line buffer: g_len+1 bytes, g_buf[g_len] == 0 */
-long g_len;
+/* Ghost description of the line buffer: g_buf has g_len+1 bytes and g_buf[g_len] == 0; LINE_OK ties line->end to
+ * g_buf + g_len.  Per-function units quantify over arbitrary ghost values (global variables set by the harness: fast).
+ * In the orc_parse_code unit, where the buffer changes on every iteration, the ghosts are DEFINED from the line
+ * (-DGHOST_FROM_LINE): g_buf = line->end - offset(line->end), g_len = offset(line->end) -- an instance of the
+ * arbitrary values the per-function proofs cover. */
+#ifdef GHOST_FROM_LINE
+#define g_len OFF(line->end)
+#define g_buf ((char *)line->end - OFF(line->end))
+#define GHOST_SET(l, buf, len) ((void)0)
+#else
+char *g_buf_var; long g_len_var;
+#define g_buf g_buf_var
+#define g_len g_len_var
+#define GHOST_SET(l, buf, len) (g_buf_var = (buf), g_len_var = (len))
+#endif
 const char *g_code;   /* the source text: g_code_len+1 bytes, first NUL at g_code_len */
 long g_code_len;
 
@@ -85,16 +100,19 @@ long g_tk;   /* ghost token index */
 static void orc_line_parse_tokens (OrcLine *line)
 __CPROVER_requires(BUF_OK() && __CPROVER_rw_ok(line, sizeof(*line)) && LINE_OK(line) && line->n_tokens == 0)
 __CPROVER_assigns(__CPROVER_object_whole(line), __CPROVER_object_whole(g_buf))
+__CPROVER_ensures(line->end == __CPROVER_old(line->end))
 __CPROVER_ensures(LINE_OK(line) && g_buf[g_len] == 0)
+__CPROVER_ensures(line->n_tokens > 0 ==> TOK_OK(line, 0))
 __CPROVER_ensures((0 <= g_tk && g_tk < line->n_tokens) ==> TOK_OK(line, g_tk));
 
 /* arbitrary line state: buffer of symbolic length (unbounded up to the object cap), cursor anywhere */
 static OrcLine *mk_line(void) {
-  g_len = nondet_long(); __CPROVER_assume(g_len >= 0 && g_len <= 100000);
-  g_buf = malloc(g_len + 1); __CPROVER_assume(g_buf != NULL); g_buf[g_len] = 0;
+  long len = nondet_long(); __CPROVER_assume(len >= 0 && len <= 100000);
+  char *buf = malloc(len + 1); __CPROVER_assume(buf != NULL); buf[len] = 0;
   OrcLine *l = malloc(sizeof(*l)); __CPROVER_assume(l != NULL);
-  long off = nondet_long(); __CPROVER_assume(off >= 0 && off <= g_len + 1);
-  l->p = g_buf + off; l->end = g_buf + g_len;
+  long off = nondet_long(); __CPROVER_assume(off >= 0 && off <= len + 1);
+  l->p = buf + off; l->end = buf + len;
+  GHOST_SET(l, buf, len);
   return l;
 }
 void h_skip_blanks(void) { OrcLine *line = mk_line(); orc_line_skip_blanks(line); REACH(); }
@@ -119,26 +137,49 @@ void h_parse_tokens(void) { OrcLine *line = mk_line(); g_tk = nondet_long(); orc
    T_OK(l,8) && T_OK(l,9) && T_OK(l,10) && T_OK(l,11) && T_OK(l,12) && T_OK(l,13) && T_OK(l,14) && T_OK(l,15))
 #endif
 
+/* The same predicates as lists of separate clauses: one big short-circuit conjunction makes dfcc's symbolic
+ * execution superlinear (24 s vs 6 s for a handler), separate clauses are cheap. */
+#define REQ_BUF __CPROVER_requires(g_len >= 0 && g_len <= 100000) __CPROVER_requires(__CPROVER_rw_ok(g_buf, g_len + 1)) __CPROVER_requires(g_buf[g_len] == 0)
+#define PARSER_CLAUSES(K, p) K(__CPROVER_rw_ok((p), sizeof(OrcParser))) K(VEC_OK(&(p)->errors)) K(VEC_OK(&(p)->programs)) \
+   K((p)->program == NULL || PROGRAM_OK((p)->program)) K(OPSET_OK((p)->opcode_set)) \
+   K((p)->init_function == NULL || __CPROVER_r_ok((p)->init_function, 1))
+#define REQ_PARSER(p) PARSER_CLAUSES(__CPROVER_requires, p)
+#define ENS_PARSER(p) PARSER_CLAUSES(__CPROVER_ensures, p)
+#define REQ_HLINE(l) __CPROVER_requires(__CPROVER_r_ok((l), sizeof(OrcLine))) __CPROVER_requires((l)->n_tokens >= 1 && (l)->n_tokens <= ORC_LINE_MAX_TOKENS) \
+   __CPROVER_requires(T_OK(l,0)) __CPROVER_requires(T_OK(l,1)) __CPROVER_requires(T_OK(l,2)) __CPROVER_requires(T_OK(l,3)) \
+   __CPROVER_requires(T_OK(l,4)) __CPROVER_requires(T_OK(l,5)) __CPROVER_requires(T_OK(l,6)) __CPROVER_requires(T_OK(l,7)) \
+   __CPROVER_requires(T_OK(l,8)) __CPROVER_requires(T_OK(l,9)) __CPROVER_requires(T_OK(l,10)) __CPROVER_requires(T_OK(l,11)) \
+   __CPROVER_requires(T_OK(l,12)) __CPROVER_requires(T_OK(l,13)) __CPROVER_requires(T_OK(l,14)) __CPROVER_requires(T_OK(l,15))
+
 /* orcutils.c vector: contract (enforced on the real body in unit orc_vector_append) */
 long g_vk;   /* ghost index into the vector */
+/* replace-mode abstraction: after the call the items array is some valid array of n_items_alloc slots whose
+ * last used slot holds the item (whether it was reallocated is not exposed; the release of the old array is
+ * verified on the real body in unit orc_vector_append, not re-modelled here) */
 void orc_vector_append (OrcVector *vector, void *item)
-__CPROVER_requires(__CPROVER_rw_ok(vector, sizeof(*vector)) && VEC_OK(vector))
-__CPROVER_assigns(vector->items, vector->n_items, vector->n_items_alloc; vector->items != NULL: __CPROVER_object_whole(vector->items))
-__CPROVER_frees(vector->items)
+__CPROVER_requires(__CPROVER_rw_ok(vector, sizeof(*vector)))
+__CPROVER_requires(VEC_OK(vector))
+__CPROVER_assigns(vector->items, vector->n_items, vector->n_items_alloc)
 __CPROVER_ensures(vector->n_items == __CPROVER_old(vector->n_items) + 1)
-/* full => a fresh, larger array (old one released); otherwise the same array */
-__CPROVER_ensures(__CPROVER_old(vector->n_items) == __CPROVER_old(vector->n_items_alloc)
-    ? (vector->n_items_alloc == __CPROVER_old(vector->n_items_alloc) + ORC_VECTOR_ITEM_CHUNK &&
-       __CPROVER_is_fresh(vector->items, sizeof(void *) * vector->n_items_alloc))
-    : (vector->n_items_alloc == __CPROVER_old(vector->n_items_alloc) && vector->items == __CPROVER_old(vector->items)))
+__CPROVER_ensures(vector->n_items_alloc >= vector->n_items && vector->n_items_alloc <= __CPROVER_old(vector->n_items_alloc) + ORC_VECTOR_ITEM_CHUNK)
+__CPROVER_ensures(__CPROVER_is_fresh(vector->items, sizeof(void *) * vector->n_items_alloc))
 __CPROVER_ensures(vector->items[vector->n_items - 1] == item);
+
+/* error recording: appends exactly one record (contract enforced on the real body in unit orc_parse_add_error_valist) */
+static void orc_parse_add_error_valist (OrcParser *parser, const char *format, va_list args)
+__CPROVER_requires(__CPROVER_rw_ok(parser, sizeof(OrcParser)))
+__CPROVER_requires(VEC_OK(&parser->errors))
+__CPROVER_requires(parser->program == NULL || __CPROVER_r_ok(parser->program, sizeof(OrcProgram)))
+__CPROVER_assigns(parser->errors.items, parser->errors.n_items, parser->errors.n_items_alloc, parser->error_program)
+__CPROVER_ensures(parser->errors.n_items == __CPROVER_old(parser->errors.n_items) + 1)
+__CPROVER_ensures(parser->errors.n_items_alloc >= parser->errors.n_items && parser->errors.n_items_alloc <= __CPROVER_old(parser->errors.n_items_alloc) + ORC_VECTOR_ITEM_CHUNK)
+__CPROVER_ensures(__CPROVER_is_fresh(parser->errors.items, sizeof(void *) * parser->errors.n_items_alloc));
 
 #define HANDLER_CONTRACT(fn) \
 static int fn (OrcParser *parser, const OrcLine *line) \
-__CPROVER_requires(BUF_OK() && PARSER_OK(parser) && HLINE_OK(line) && parser->program != NULL) \
+REQ_BUF REQ_PARSER(parser) REQ_HLINE(line) __CPROVER_requires(parser->program != NULL) \
 __CPROVER_assigns(parser->errors.items, parser->errors.n_items, parser->errors.n_items_alloc, parser->error_program; parser->errors.items != NULL: __CPROVER_object_whole(parser->errors.items); parser->program != NULL: __CPROVER_object_whole(parser->program)) \
-__CPROVER_frees(parser->errors.items) \
-__CPROVER_ensures(PARSER_OK(parser) && parser->program == __CPROVER_old(parser->program)) \
+ENS_PARSER(parser) __CPROVER_ensures(parser->program == __CPROVER_old(parser->program)) \
 __CPROVER_ensures(parser->errors.n_items >= __CPROVER_old(parser->errors.n_items));
 
 HANDLER_CONTRACT(orc_parse_handle_backup)
@@ -155,44 +196,50 @@ HANDLER_CONTRACT(orc_parse_handle_parameter_int64)
 HANDLER_CONTRACT(orc_parse_handle_parameter_float)
 HANDLER_CONTRACT(orc_parse_handle_parameter_double)
 
+/* opcode lookup: NULL or an entry of the parser's opcode table (enforced with a loop contract in unit orc_parse_find_opcode) */
+static OrcStaticOpcode * orc_parse_find_opcode (OrcParser *parser, const char *opcode)
+__CPROVER_requires(__CPROVER_r_ok(parser, sizeof(OrcParser)))
+__CPROVER_requires(OPSET_OK(parser->opcode_set))
+__CPROVER_requires(IS_STR(opcode))
+__CPROVER_assigns()
+__CPROVER_ensures(__CPROVER_return_value == NULL || (parser->opcode_set->n_opcodes > 0 &&
+   __CPROVER_pointer_in_range_dfcc(parser->opcode_set->opcodes, __CPROVER_return_value, parser->opcode_set->opcodes + (parser->opcode_set->n_opcodes - 1))));
+
 /* an instruction line never removes instructions; at most one is appended */
 static int orc_parse_handle_opcode (OrcParser *parser, const OrcLine *line)
-__CPROVER_requires(BUF_OK() && PARSER_OK(parser) && HLINE_OK(line))
+REQ_BUF REQ_PARSER(parser) REQ_HLINE(line)
 __CPROVER_assigns(parser->errors.items, parser->errors.n_items, parser->errors.n_items_alloc, parser->error_program; parser->errors.items != NULL: __CPROVER_object_whole(parser->errors.items); parser->program != NULL: __CPROVER_object_whole(parser->program))
-__CPROVER_frees(parser->errors.items)
-__CPROVER_ensures(PARSER_OK(parser) && parser->program == __CPROVER_old(parser->program))
+ENS_PARSER(parser) __CPROVER_ensures(parser->program == __CPROVER_old(parser->program))
 __CPROVER_ensures(parser->errors.n_items >= __CPROVER_old(parser->errors.n_items))
 __CPROVER_ensures(parser->program == NULL ==> (__CPROVER_return_value == 0 &&
                   (parser->enable_errors ==> parser->errors.n_items == __CPROVER_old(parser->errors.n_items) + 1)));
 
 /* .init: the stored name is owned: NULL or a live string (never a freed pointer) */
 static int orc_parse_handle_init (OrcParser *parser, const OrcLine *line)
-__CPROVER_requires(BUF_OK() && PARSER_OK(parser) && HLINE_OK(line))
+REQ_BUF REQ_PARSER(parser) REQ_HLINE(line)
 __CPROVER_requires(parser->init_function == NULL || __CPROVER_is_fresh(parser->init_function, 8))
 __CPROVER_assigns(parser->errors.items, parser->errors.n_items, parser->errors.n_items_alloc, parser->error_program, parser->init_function; parser->errors.items != NULL: __CPROVER_object_whole(parser->errors.items))
-__CPROVER_frees(parser->errors.items, parser->init_function)
-__CPROVER_ensures(PARSER_OK(parser))
+__CPROVER_frees(parser->init_function)
+ENS_PARSER(parser)
 __CPROVER_ensures(parser->init_function == NULL || __CPROVER_r_ok(parser->init_function, 1))
 __CPROVER_ensures(__CPROVER_return_value == 0 ==> parser->init_function == NULL);
 
 /* .function: previous program sanity-checked, new program created and appended */
 static void orc_parse_sanity_check (OrcParser *parser, OrcProgram *program)
-__CPROVER_requires(PARSER_OK(parser) && PROGRAM_OK(program))
+REQ_PARSER(parser) __CPROVER_requires(PROGRAM_OK(program))
 __CPROVER_assigns(parser->errors.items, parser->errors.n_items, parser->errors.n_items_alloc, parser->error_program, __CPROVER_object_whole(program); parser->errors.items != NULL: __CPROVER_object_whole(parser->errors.items))
-__CPROVER_frees(parser->errors.items)
-__CPROVER_ensures(PARSER_OK(parser) && PROGRAM_OK(program));
+ENS_PARSER(parser) __CPROVER_ensures(PROGRAM_OK(program));
 
 static int orc_parse_handle_function (OrcParser *parser, const OrcLine *line)
-__CPROVER_requires(BUF_OK() && PARSER_OK(parser) && HLINE_OK(line))
+REQ_BUF REQ_PARSER(parser) REQ_HLINE(line)
 __CPROVER_assigns(__CPROVER_object_whole(parser); parser->errors.items != NULL: __CPROVER_object_whole(parser->errors.items); parser->programs.items != NULL: __CPROVER_object_whole(parser->programs.items); parser->program != NULL: __CPROVER_object_whole(parser->program))
-__CPROVER_frees(parser->errors.items, parser->programs.items)
-__CPROVER_ensures(PARSER_OK(parser) && parser->program != NULL && parser->program->n_insns == 0)
+ENS_PARSER(parser) __CPROVER_ensures(parser->program != NULL && parser->program->n_insns == 0)
 __CPROVER_ensures(parser->programs.n_items == __CPROVER_old(parser->programs.n_items) + 1);
 
 static int orc_parse_handle_directive (OrcParser *parser, const OrcLine *line)
-__CPROVER_requires(BUF_OK() && PARSER_OK(parser) && HLINE_OK(line))
+REQ_BUF REQ_PARSER(parser) REQ_HLINE(line)
 __CPROVER_assigns(__CPROVER_object_whole(parser); parser->errors.items != NULL: __CPROVER_object_whole(parser->errors.items); parser->programs.items != NULL: __CPROVER_object_whole(parser->programs.items); parser->program != NULL: __CPROVER_object_whole(parser->program))
-__CPROVER_frees(parser->errors.items, parser->programs.items, parser->init_function)
+__CPROVER_frees(parser->init_function)
 __CPROVER_ensures(PARSER_OK(parser));
 
 /* ---- harness state builders */
@@ -218,8 +265,8 @@ static OrcLine *mk_tok_line(void) {
   OrcLine *l = mk_line();
   __CPROVER_assume(l->n_tokens >= 1 && l->n_tokens <= ORC_LINE_MAX_TOKENS);
   for (int j = 0; j < ORC_LINE_MAX_TOKENS; j++) {
-    long o = nondet_long(); __CPROVER_assume(o >= 0 && o <= g_len);
-    l->tokens[j] = g_buf + o;
+    long o = nondet_long(); __CPROVER_assume(o >= 0 && o <= OFF(l->end));
+    l->tokens[j] = (char *)l->end - o;
   }
   return l;
 }
@@ -241,3 +288,74 @@ H_HANDLER(orc_parse_handle_opcode)
 H_HANDLER(orc_parse_handle_init)
 H_HANDLER(orc_parse_handle_function)
 H_HANDLER(orc_parse_handle_directive)
+
+/* ================================================================ error recording (real body) */
+void h_orc_parse_add_error_valist(void) {
+  OrcParser *p = mk_parser(); va_list ap;
+  orc_parse_add_error_valist(p, "fmt", ap);
+  REACH();
+}
+
+/* ================================================================ line layer */
+#define CODE_OK() (g_code_len >= 0 && g_code_len <= 100000 && __CPROVER_r_ok(g_code, g_code_len + 1) && g_code[g_code_len] == 0)
+#define CUR_OK(q) ((q)->code == g_code && (q)->code_length == g_code_len && __CPROVER_pointer_in_range_dfcc(g_code, (q)->p, g_code + g_code_len))
+
+static void orc_parse_find_line_length (OrcParser *parser)
+__CPROVER_requires(__CPROVER_rw_ok(parser, sizeof(OrcParser)))
+__CPROVER_requires(CODE_OK())
+__CPROVER_requires(CUR_OK(parser))
+__CPROVER_assigns(parser->line_length)
+__CPROVER_ensures(parser->line_length >= 0 && OFF(parser->p) + parser->line_length <= g_code_len)
+/* an empty line is only reported at a line terminator or at the end of the text (progress of the main loop) */
+__CPROVER_ensures(parser->line_length == 0 ==> (parser->p[0] == 0 || parser->p[0] == '\n' || parser->p[0] == '\r'));
+
+static void orc_parse_advance (OrcParser *parser)
+__CPROVER_requires(__CPROVER_rw_ok(parser, sizeof(OrcParser)))
+__CPROVER_requires(CODE_OK())
+__CPROVER_requires(CUR_OK(parser))
+__CPROVER_requires(parser->line_length >= 0 && OFF(parser->p) + parser->line_length <= g_code_len)
+__CPROVER_assigns(parser->p)
+__CPROVER_ensures(CUR_OK(parser))
+__CPROVER_ensures(OFF(parser->p) >= __CPROVER_old(OFF(parser->p)) + parser->line_length)
+__CPROVER_ensures((parser->line_length == 0 && (__CPROVER_old(parser->p[0]) == '\n' || __CPROVER_old(parser->p[0]) == '\r'))
+                  ==> OFF(parser->p) == __CPROVER_old(OFF(parser->p)) + 1);
+
+char * _strndup (const char *s, int n)
+__CPROVER_requires(n >= 0 && n <= 100000 && __CPROVER_r_ok(s, n))
+__CPROVER_assigns()
+__CPROVER_ensures(__CPROVER_is_fresh(__CPROVER_return_value, n + 1))
+__CPROVER_ensures(__CPROVER_return_value[n] == 0);
+
+/* one line is taken: fresh NUL-terminated copy, line number incremented, cursor strictly advances unless at the end */
+static void orc_parse_get_line (OrcParser *parser)
+__CPROVER_requires(__CPROVER_rw_ok(parser, sizeof(OrcParser)))
+__CPROVER_requires(CODE_OK())
+__CPROVER_requires(CUR_OK(parser))
+__CPROVER_requires(parser->line == NULL || __CPROVER_is_fresh(parser->line, 1))
+__CPROVER_requires(parser->line_number >= 0 && parser->line_number <= 200000)
+__CPROVER_assigns(parser->p, parser->line, parser->line_length, parser->line_number)
+__CPROVER_frees(parser->line)
+__CPROVER_ensures(CUR_OK(parser))
+__CPROVER_ensures(parser->line_length >= 0 && parser->line_length <= 100000)
+__CPROVER_ensures(__CPROVER_is_fresh(parser->line, parser->line_length + 1) && parser->line[parser->line_length] == 0)
+__CPROVER_ensures(parser->line_number == __CPROVER_old(parser->line_number) + 1)
+__CPROVER_ensures(__CPROVER_old(parser->p[0]) != 0 ==> OFF(parser->p) > __CPROVER_old(OFF(parser->p)));
+
+static OrcParser *mk_cursor_parser(void) {
+  OrcParser *p = mk_parser();
+  g_code_len = nondet_long(); __CPROVER_assume(g_code_len >= 0 && g_code_len <= 100000);
+  char *c = malloc(g_code_len + 1); __CPROVER_assume(c != NULL); c[g_code_len] = 0;
+  g_code = c;
+  long off = nondet_long(); __CPROVER_assume(off >= 0 && off <= g_code_len);
+  p->code = g_code; p->code_length = (int)g_code_len; p->p = g_code + off;
+  if (nondet_bool()) p->line = NULL; else { p->line = malloc(1); __CPROVER_assume(p->line != NULL); }
+  return p;
+}
+void h_find_line_length(void) { OrcParser *p = mk_cursor_parser(); orc_parse_find_line_length(p); REACH(); }
+void h_parse_advance(void) { OrcParser *p = mk_cursor_parser(); orc_parse_advance(p); REACH(); }
+void h_get_line(void) { OrcParser *p = mk_cursor_parser(); orc_parse_get_line(p); REACH(); }
+
+/* ================================================================ .function and the dispatcher */
+void h_orc_parse_handle_function2(void) { OrcParser *p = mk_parser(); OrcLine *l = mk_tok_line(); orc_parse_handle_function(p, l); REACH(); }
+
+void h_find_opcode(void) { OrcParser *p = mk_parser(); OrcLine *l = mk_tok_line(); orc_parse_find_opcode(p, l->tokens[0]); REACH(); }
